@@ -416,6 +416,16 @@ class Interp:
         tb = isinstance(b, Opaque) and b.tag == "text"
         if ta or tb:
             return self.text_eq(a, b)
+        if (isinstance(a, Opaque) and isinstance(b, Opaque) and a is not b
+                and "$digest_args" in a.attrs and "$digest_args" in b.attrs):
+            # two digests (library identifiers): equal exactly when their arguments are equal - 'equal content => equal
+            # digest' is the function property, 'different content => different digest' is the collision-freeness of
+            # md5 on the inputs at hand (assumption, listed with the digest_object summary).  Needed so that the
+            # duplicate-member guards of the collections (``guid in self.guid_map``) are executed, not skipped.
+            try:
+                return self.sym_eq(a.attrs["$digest_args"], b.attrs["$digest_args"])
+            except Unsupported:
+                return False
         if isinstance(a, Opaque) or isinstance(b, Opaque):
             if isinstance(a, Opaque) and "__eq__" in a.methods:
                 return a.methods["__eq__"](self, b)
